@@ -362,6 +362,32 @@ def layer2_task(t, res):
             for i, m in enumerate(ds.mazes):
                 judge_item(m, t["grid_real"], {}, res, f"C03|generate|{gen}|{kwkey(kw)}|after_generation_with_{opt_key(first_opts)}", dict(rd, index=i))
             res.nontrivial(("l2seq", gen, kwkey(kw), seed, opt_key(first_opts), repr(first_kw)))
+    # the configured count through the cache: two configurations that differ only in the maze count, requested one after the other over one
+    # cache directory (counts that abbreviate alike in the file name, and small ones) - each gets exactly its count
+    if gen == "gen_dfs" and t["seeds"]:
+        import shutil
+        import tempfile
+
+        for na, nb in ((1000, 1030), (5, 8), (1030, 1000)):
+            d = tempfile.mkdtemp(prefix="mzc03c.", dir="/var/tmp")
+            try:
+                for n_req in (na, nb):
+                    res.ev()
+                    rd = dict(kind="l2cache", gen=gen, kw=kw, grid=2, na=na, nb=nb)
+                    try:
+                        ds = MazeDataset.from_config(make_cfg(gen, kw, 2, n_req, {}, seed=7), local_base_path=d, do_download=False)
+                    except Exception as e:  # noqa: BLE001
+                        res.fail(f"C03|from_config|{gen}|n_mazes_neighbours_in_one_cache|raised|{type(e).__name__}", f"from_config(n_mazes={n_req}) after a request for "
+                                 f"{na} mazes in the same cache directory raised {type(e).__name__}: {str(e)[:150]}", rd)
+                        break
+                    if len(ds) != n_req:
+                        res.fail(f"C03|from_config|{gen}|n_mazes_neighbours_in_one_cache|count", f"from_config(n_mazes={n_req}) over a cache directory that already served "
+                                 f"n_mazes={na} returned {len(ds)} items", rd)
+                    for i in (0, len(ds) // 2, len(ds) - 1):
+                        judge_item(ds.mazes[i], 2, {}, res, f"C03|from_config|{gen}|cache", dict(rd, index=i))
+                res.nontrivial(("l2cache", na, nb))
+            finally:
+                shutil.rmtree(d, ignore_errors=True)
     # real PRNG: several seeds, every item valid
     for seed in t["seeds"]:
         # counts across the 127/128 and 255/256 boundaries once per generator (first seed), small counts for every seed
@@ -754,6 +780,9 @@ def replay(d, res):
                 res.fail(f"{keyp}|raised|{type(ex.exc).__name__}", f"raised {ex.exc!r}", d)
             return
         judge_item(SolvedMaze.from_lattice_maze(lattice_maze=m, solution=ex.out), n, opts, res, keyp, d)
+    elif k == "l2cache":
+        t = dict(gen=d["gen"], kw=dict(d["kw"]), grid=d["grid"], counts=[], dev=1, seeds=[0], grid_real=2, tier="quick", max_exec=20000)
+        layer2_task(t, res)
     elif k == "l2seq":
         t = dict(gen=d["gen"], kw=dict(d["kw"]), grid=d["grid"], counts=[], dev=1, seeds=[d["seed"], d["seed"]], grid_real=d["grid"], tier="quick", max_exec=20000)
         layer2_task(t, res)
